@@ -115,6 +115,7 @@ struct World {
   // hook invoked when a read() on a simulated descriptor has delivered data, before it returns
   void (*after_read_hook)() = nullptr;
   bool shuffle_readdir = false;
+  bool dirent_types_known = false; // readdir() fills d_type with the true type instead of DT_UNKNOWN
   bool own_empty_polls = false;
   // The calling process "has no descriptor 0": the next open() of a simulated path is handed the number 0
   // (once per run). While set, descriptor 0 belongs to the simulated kernel; the harness never uses stdin.
@@ -172,6 +173,8 @@ uint64_t urandom_consumed();
 void set_urandom_script(const std::vector<int>& script);
 // The next `times` opens of /dev/urandom fail with EMFILE (the process has momentarily no free descriptor).
 void urandom_open_fails(int times);
+// called on entry to every read of the simulated device (the reader is "inside the system call" there)
+void urandom_set_read_hook(void (*h)());
 void urandom_get_state(uint64_t& pos, size_t& script_pos);
 void urandom_set_state(uint64_t pos, size_t script_pos);
 void urandom_script_suspend(bool on); // a healthy device for a while; the script (and its position) is kept
